@@ -71,7 +71,8 @@ def propagate_glyphset(rng):
     def anc(n, x, y):
         return {"n": n, "x": x * PS, "y": y * PS}
 
-    pal = [[MS, 0, 0, MS]] * 4 + [[-MS, 0, 0, MS], [MS, 0, 0, -MS], [MS // 2, 0, 0, MS // 2], [0, MS, -MS, 0]]
+    pal = [[MS, 0, 0, MS]] * 4 + [[-MS, 0, 0, MS], [MS, 0, 0, -MS], [MS // 2, 0, 0, MS // 2], [0, MS, -MS, 0], [0, -MS, MS, 0],
+                                  [MS, 0, MS // 2, MS], [MS, MS // 2, 0, MS]]      # (rotations and shears: the xy / yx terms matter)
     glyphs = {}
     bases = rng.sample(["a", "e", "o", "f", "i"], rng.randint(2, 4))
     for b in bases:
